@@ -32,11 +32,13 @@ def _ref(o, off=None):
     return r
 
 
-def fam_pair(ctx, ka, sa, fa, kb, sb, fb, permb, base, w, swap, method):
-    """A fixed; B = shape translated by base + t*w (lattice vectors in world coordinates)"""
+def fam_pair(ctx, ka, sa, fa, kb, sb, fb, permb, base, w, swap, method, origin=None):
+    """A fixed; B = shape translated by base + t*w (lattice vectors in world coordinates; w = 'edge': the first edge of A)"""
     t = ctx.param('t')
-    oa = _obj(ka, sa, fa)
-    ob = _obj(kb, sb, fb, perm=permb)
+    oa = _obj(ka, sa, fa, origin=origin)
+    ob = _obj(kb, sb, fb, perm=permb, origin=origin)
+    if w == 'edge':
+        w = R.vsub(oa.verts[1], oa.verts[0])
     off = R.affine(tuple(F(x) for x in base), (t, tuple(F(x) for x in w)))
     A, Bq = _ref(oa), _ref(ob, off)
     if swap:
@@ -55,6 +57,23 @@ def fam_pair(ctx, ka, sa, fa, kb, sb, fb, permb, base, w, swap, method):
     ctx.outcome(kind_of(r))
     orc.check(ctx, r, sig)
     # measures of the result agree with the measure of the true vertex set (convex => determined by the vertices)
+    if getattr(ctx, 'mode', '') == 'conc' and isinstance(r, (ConvexPolygon, ConvexPolyhedron)):
+        # float replays: exact hull of the true vertices (rational at concrete parameters) against the library's area() / volume():
+        # a result with the right vertices but wrong faces has the wrong measure
+        true_pts = list(dict.fromkeys(x for x, feas, _ in orc.cands if feas))
+        try:
+            if isinstance(r, ConvexPolyhedron):
+                want, got = B.Body(true_pts).volume(), r.volume()
+                ctx.require(abs(F(got) - want) <= F(1, 10 ** 6) * (1 + want), sig + ': volume of the result is not the volume of the true intersection')
+            else:
+                cyc, nn = B.hull2d(true_pts)
+                tw = (F(0),) * 3
+                for i in range(1, len(cyc) - 1):
+                    tw = R.vadd(tw, R.cross(R.vsub(cyc[i], cyc[0]), R.vsub(cyc[i + 1], cyc[0])))
+                want2, got = R.norm2(tw) / 4, r.area()
+                ctx.require(abs(F(got) ** 2 - want2) <= F(1, 10 ** 6) * (1 + want2), sig + ': area of the result is not the area of the true intersection')
+        except (ValueError, AssertionError):
+            pass        # degenerate true vertex set: the vertex comparison above has already failed
     if isinstance(r, Segment):
         ra = D.as_ref(r)
         st, l = call(r.length)
@@ -90,6 +109,9 @@ def families(tier, seed):
         # positive side of its normal); t = 0: coplanar with the base face
         (PH, 'tetra', 'axis', PG, 'square*2', 'axis', None, (F(-1, 2), F(-1, 4), 0), (0, 0, 1)),
         (PH, 'tetra', 'axis', PG, 'square*2~', 'axis', None, (F(-1, 2), F(-1, 4), 0), (0, 0, 1)),
+        # coplanar polygons in an oblique plane THROUGH THE ORIGIN (offset 0: a relative offset comparison degenerates to exact float
+        # equality there; the float replay of the lattice witnesses decides) -- frame with normal (6,2,-3)/7
+        (PG, 'square', 'pyth7', PG, 'tri', 'pyth7', None, (0, 0, 0), 'edge', (0, 0, 0)),
         # polyhedron x polyhedron
         (PH, 'cube', 'axis', PH, 'cube', 'axis', None, (0, 0, 0), (1, 0, 0)),
         (PH, 'cube', 'axis', PH, 'cube', 'axis', None, (1, 1, 0), (0, 0, 1)),
@@ -125,14 +147,17 @@ def families(tier, seed):
         (PH, 'cube', 'pyth3', PH, 'cube', 'pyth3', None, (0, 0, 0), (F(1, 4), F(2, 4), F(2, 4))),
     ]
     rows = quick if tier == 'quick' else quick + extra
-    for i, (ka, sa, fa, kb, sb, fb, pb, base, w) in enumerate(rows):
+    for i, row in enumerate(rows):
+        ka, sa, fa, kb, sb, fb, pb, base, w = row[:9]
+        origin = row[9] if len(row) > 9 else None
         for swap in ((False,) if (tier == 'quick' and ka == kb == PH and '*' not in sb) else (False, True)):
             method = (i % 2 == 1)
             heavy = (ka == PH and kb == PH)
             fams.append(Family('%s-%s@%s/%s-%s@%s%s/base%s/w%s/%s%s' % (ka[6:], sa, fa, kb[6:], sb, fb, '' if pb is None else '#%d' % pb,
-                                                                      ','.join(map(str, base)), ','.join(map(str, w)), 'swap' if swap else 'fwd',
+                                                                      ','.join(map(str, base)), w if isinstance(w, str) else ','.join(map(str, w)),
+                                                                      ('swap' if swap else 'fwd') + ('' if origin is None else '@origin'),
                                                                       '/m' if method else ''),
-                               fam_pair, (ka, sa, fa, kb, sb, fb, pb, base, w, swap, method),
+                               fam_pair, (ka, sa, fa, kb, sb, fb, pb, base, w, swap, method, origin),
                                budget_s=(150 if tier == 'quick' else 2400) if heavy else None))
     return fams
 
